@@ -790,7 +790,24 @@ interval_relation(const ITV& i,
   else {
     // `c' is an upper bound.
     if (i.upper_is_boundary_infinity()) {
-      return Poly_Con_Relation::strictly_intersects();
+      // The interval is not the universe: it has a lower bound.
+      PPL_ASSERT(!i.lower_is_boundary_infinity());
+      assign_r(bound_diff, i.lower(), ROUND_NOT_NEEDED);
+      sub_assign_r(bound_diff, bound_diff, bound, ROUND_NOT_NEEDED);
+      switch (sgn(bound_diff)) {
+      case -1:
+        return Poly_Con_Relation::strictly_intersects();
+      case 0:
+        if (constraint_type == Constraint::STRICT_INEQUALITY
+            || i.lower_is_open()) {
+          return Poly_Con_Relation::is_disjoint();
+        }
+        else {
+          return Poly_Con_Relation::strictly_intersects();
+        }
+      case 1:
+        return Poly_Con_Relation::is_disjoint();
+      }
     }
     else {
       assign_r(bound_diff, i.upper(), ROUND_NOT_NEEDED);
@@ -974,6 +991,10 @@ Box<ITV>::relation_with(const Constraint& c) const {
             && Poly_Con_Relation::is_included();
         }
       case 1:
+        // The trivial equality `k == 0' with `k > 0' is unsatisfiable.
+        if (c.is_equality()) {
+          return Poly_Con_Relation::is_disjoint();
+        }
         return Poly_Con_Relation::is_included();
       }
     }
